@@ -1318,6 +1318,8 @@ func evalLenFor(cd Cond, neg ssa.Value, L int64) (bool, bool) {
 
 func c10(r *Report, s *Sem) {
 	p := r.P
+	defer r.Import(s, "C09", "R3", "R8", "credentials only after the upgrade really happened: every success path from the confirmation passes SetEncryption (and SetCompression) with the confirmed value unless already in force, and their errors abort the handshake — an upgrade skipped when the compression also changed, or whose error is swallowed, leaves authentication on the cleartext socket", 4)
+	defer r.Import(s, "C09", "R5", "R9", "the TCP transport reports 'tls' only after a successful handshake (recorded before it, a failed or aborted upgrade leaves a cleartext connection that claims to be encrypted)", 2)
 	defer r.Import(s, "C12", "R4", "R6", "what is negotiated is what carries the bytes: the JSON encoder/decoder of a TCP transport are rebuilt over the wrapper of the *current* connection at construction and after a successful TLS handshake (streams cached from the plain connection would keep credentials in cleartext while Encryption() reports tls)", 8)
 	R1 := r.Rule("R1", "skipping negotiation is control-dependent on the current encryption: in the server's EstablishSession, for a non-empty negotiable encryption set, every path that reaches the authentication driver without passing the negotiation driver crosses an edge on which the single negotiable option was compared equal to Transport.Encryption() (abstract interpretation over len ∈ {1, ≥2})", 1)
 	R2 := r.Rule("R2", "the negotiable encryption set handed to the negotiation driver is the intersection of the configured list with the transport's capabilities (so a configured list without 'none' never yields 'none'), and negotiation results come from that set (C09.R2)", 1)
